@@ -554,9 +554,17 @@ def check_protocol(repo: Repo, rep: Report, h: Harness, jp: JavaProtocol) -> Non
                 rep.finding("SGR-3", SUGAR, "SugarLikeBackend.solve", "answer-mode reply parsing",
                             f"reply {reply_sat(descs[0]) if descs else ''!r} gives result {r!r} and sol {sols!r}; expected True and [-2, True, False, 10, True]")
             # the UNSAT reply after a SAT reply on the same backend: the assignment of the earlier reply must not stay in sol
-            h.reply = a_unsat + "\n"
+            seen2: List[str] = []
+            h.reply = lambda desc: (seen2.append(desc), a_unsat + "\n")[1]
             r3 = h.cw.method(b, "solve")()
             sols3 = [v.attrs.get("sol") for v in vs]
+            # the refinement loop solves again and again on ONE backend object: every description declares every variable
+            if seen2 and seen2[0] != exp_desc:
+                rep.finding("SGR-5", SUGAR, "SugarLikeBackend.solve", "CSP description of a second solve on the same backend",
+                            f"the second solve() on one backend object sends {seen2[0]!r}; the first one sent {exp_desc!r} "
+                            "(nothing was posted in between: the two descriptions must be the same)")
+            else:
+                rep.ok("SGR-5", f"{cls}.solve: a second solve on the same backend sends the same declarations and constraints again")
             if r3 is False and sols3 == [None] * 5:
                 rep.ok("SGR-3", f"{cls}.solve: the UNSAT reply after a SAT reply returns False and clears every sol")
             else:
